@@ -304,7 +304,7 @@ func toF(v any) (float64, bool) {
 }
 
 var aggFnNames = map[string]bool{"COUNT": true, "count": true, "sum": true, "min": true, "max": true, "avg": true, "any": true,
-	"argMin": true, "argMax": true, "countMerge": true}
+	"argMin": true, "argMax": true, "countMerge": true, "varPop": true, "stddevPop": true}
 
 // evalNode: aggregates range over grp, other expressions are evaluated on row
 func evalNode(n *node, row srow, grp []srow) (any, error) {
@@ -404,6 +404,22 @@ func evalNode(n *node, row srow, grp []srow) (any, error) {
 					m = math.Max(m, f)
 				}
 				return m, nil
+			case "varPop", "stddevPop":
+				fs := fl()
+				m := 0.0
+				for _, f := range fs {
+					m += f
+				}
+				m /= float64(len(fs))
+				v := 0.0
+				for _, f := range fs {
+					v += (f - m) * (f - m)
+				}
+				v /= float64(len(fs))
+				if n.text == "stddevPop" {
+					return math.Sqrt(v), nil
+				}
+				return v, nil
 			case "any":
 				return vals[0], nil
 			case "argMin", "argMax":
@@ -525,6 +541,10 @@ func defUnwrap(fn string, secs float64, ts, vs []float64) float64 {
 		return vs[first]
 	case "last_over_time":
 		return vs[last]
+	case "stdvar_over_time":
+		return defVariance(vs)
+	case "stddev_over_time":
+		return math.Sqrt(defVariance(vs))
 	}
 	return math.NaN()
 }
@@ -546,8 +566,25 @@ func defAgg(fn string, vs []float64) float64 {
 		return mx
 	case "count":
 		return float64(len(vs))
+	case "stdvar":
+		return defVariance(vs)
+	case "stddev":
+		return math.Sqrt(defVariance(vs))
 	}
 	return math.NaN()
+}
+
+// population variance: mean of the squared deviations from the mean (two-pass, as the definition reads)
+func defVariance(vs []float64) float64 {
+	mean := 0.0
+	for _, v := range vs {
+		mean += v / float64(len(vs))
+	}
+	acc := 0.0
+	for _, v := range vs {
+		acc += (v - mean) * (v - mean) / float64(len(vs))
+	}
+	return acc
 }
 
 func defCmp(op string, x, y float64) bool {
@@ -647,7 +684,7 @@ func stageCase(r *h.Result, rng *h.Rng, query string, script *logql_parser.LogQL
 		if unwrapped && (ra.ByOrWithoutPrefix != nil || ra.ByOrWithoutSuffix != nil) {
 			wantGroupings++
 		}
-		if agg != nil && (agg.ByOrWithoutPrefix != nil || agg.ByOrWithoutSuffix != nil) {
+		if agg != nil { // also without grouping clause: `by ()`
 			wantGroupings++
 		}
 		for _, ct := range ctes {
@@ -726,7 +763,7 @@ func stageCase(r *h.Result, rng *h.Rng, query string, script *logql_parser.LogQL
 				if !sameSet(sp.groupBy, []string{"fingerprint", "timestamp_ns"}) {
 					r.Violate("C08/range-stage-group-by", fmt.Sprintf("unwrap range stage groups by %v", sp.groupBy), rep(nil))
 				}
-				if isIn(ra.Fn, unwrapFns) {
+				if isIn(ra.Fn, unwrapFns) || isIn(ra.Fn, unwrapFnsExtra) {
 					var grp []srow
 					var ts, vs []float64
 					for k, m := 0, rng.Range(1, 6); k < m; k++ {
@@ -751,7 +788,7 @@ func stageCase(r *h.Result, rng *h.Rng, query string, script *logql_parser.LogQL
 				if !sameSet(sp.groupBy, []string{"fingerprint", "timestamp_ns"}) {
 					r.Violate("C08/agg-stage-group-by", fmt.Sprintf("aggregation stage groups by %v", sp.groupBy), rep(nil))
 				}
-				if isIn(agg.Fn, aggFns) {
+				if isIn(agg.Fn, aggFns) || isIn(agg.Fn, aggFnsExtra) {
 					var grp []srow
 					var vs []float64
 					for k, m := 0, rng.Range(1, 6); k < m; k++ {
@@ -803,6 +840,9 @@ func stageCase(r *h.Result, rng *h.Rng, query string, script *logql_parser.LogQL
 			// by / without: the labels column filtered, the fingerprint recomputed from that filtered column
 			if lab, ok := sp.cols["labels"]; ok && strings.HasPrefix(lab, "mapFilter(") {
 				m := mapFilterRe.FindStringSubmatch(lab)
+				if m == nil && strings.HasPrefix(lab, "mapFilter((k,v) -> 0, ") {
+					m = []string{lab, "IN", "", ""} // by (): no label is kept
+				}
 				hashCol := sp.cols["new_fingerprint"]
 				if hashCol == "" {
 					hashCol = sp.cols["fingerprint"]
@@ -823,13 +863,18 @@ func stageCase(r *h.Result, rng *h.Rng, query string, script *logql_parser.LogQL
 						if g == nil {
 							g = agg.ByOrWithoutPrefix
 						}
+						if g == nil {
+							g = &logql_parser.ByOrWithout{Fn: "by"}
+						}
 					}
 					if g == nil {
 						r.Violate("C08/grouping-unexpected", "a grouping stage is planned that the query does not write", rep(nil))
 					} else {
 						listed := map[string]bool{}
 						for _, q := range strings.Split(m[2], ",") {
-							listed[strings.Trim(q, "'")] = true
+							if q != "" {
+								listed[strings.Trim(q, "'")] = true
+							}
 						}
 						for _, name := range []string{"a", "app", "job", "level", "x_1", "_y", "Host", "z9", "x", "other"} {
 							kept := listed[name] == (m[1] == "IN")
